@@ -211,7 +211,8 @@ def generate(rng, tier):
     yield ('exhaustive-seq-len%d' % bound, cases)
     # --- random longer histories
     n = 4000 if tier == 'quick' else 80000
-    langs = [b'en', b'fr', b'en-US']
+    # languages that differ only in script, region or VARIANT are different languages
+    langs = [b'en', b'fr', b'en-US', b'ca-ES', b'ca-ES-valencia', b'sr-Cyrl', b'sr-Latn', b'sl', b'sl-rozaj']
     argset = [A0, A1, AF, AF1, AF2, b'', b'\x02\x06', b'\x00\x00', b'\x03', b'\x02\x00']
     cases = []
     for _ in range(n):
@@ -220,7 +221,7 @@ def generate(rng, tier):
         for j in range(rng.randint(1, 30)):
             r = rng.random()
             if nh == 0 or r < 0.15:
-                ops.append([b'get', rng.choice(langs[:rng.choice([1, 2, 3])])])
+                ops.append([b'get', rng.choice(langs[:rng.choice([1, 2, 3, 5, 9])])])
                 nh += 1
             elif r < 0.28:
                 ops.append([b'drop', rng.randrange(nh + (1 if rng.random() < 0.1 else 0))])
@@ -234,6 +235,11 @@ def generate(rng, tier):
         keys = [(rng.randrange(2), rng.choice([A0, A1, b'', b'\x05'])) for _ in range(rng.randint(1, 3))]
         reqs = [[t, a, j + 1] for j, (t, a) in enumerate(keys + keys[:1])]
         cases.append(sexp.dumps([b'threads', 8 if i % 2 == 0 else rng.choice([2, 3, 5]), rng.choice([b'en', b'fr']), reqs]))
+    # distinct arguments that COLLIDE under Hash (type 1 has a deliberately weak Hash in the harness: length mod 3) must stay distinct keys
+    for n in (2, 5):
+        for pair in ((A0, b'\x03'), (b'\x07', b'\x08'), (b'\x05\x02\x03\x04', b'\x09'), (b'', b'\x04\x01\x01')):   # constructible arguments only
+            reqs = [[1, pair[0], 1], [1, pair[1], 2], [1, pair[0], 3], [1, pair[1], 4]]
+            cases.append(sexp.dumps([b'threads', n, b'en', reqs]))
     yield ('threads-smoke', cases)
     # --- schedule exploration
     cases = [sh_case(b'dfs', 0, 0, b'en', sc) for sc in DFS_SCENARIOS]
